@@ -23,6 +23,7 @@ mod c12;
 mod c13;
 mod c14;
 mod c15;
+mod c19;
 mod fuzzrun;
 mod ir;
 mod cli;
@@ -78,6 +79,7 @@ fn main() {
         "C14" => "C14",
         "C15" => "C15",
         "C17" => "C17",
+        "C19" => "C19",
         "C20" => "C20",
         _ => usage(),
     };
@@ -99,6 +101,7 @@ fn main() {
         "C14" => c14::run(&ctx),
         "C15" => c15::run(&ctx),
         "C17" => c17::run(&ctx),
+        "C19" => c19::run(&ctx),
         "C20" => c20::run(&ctx),
         _ => unreachable!(),
     }
@@ -131,6 +134,7 @@ fn replay(path: &str) -> i32 {
         "c12" => c12::replay(&v),
         "c13" => c13::replay(&v),
         "c14" => c14::replay(&v),
+        "c19-newvm" | "c19-det" | "c19-hist" | "c19-iso" => c19::replay(&v),
         "c15" | "c15-family" | "cli-bytes" => c15::replay(&v),
         "cli" => clicheck::replay(&v),
         "c08" => c08::replay(&v),
